@@ -46,6 +46,10 @@ def run(db, rep, tier):
     r8(db, rep)
     rep.rule("R9-per-station", "completing (or restarting) one station's handshake touches only that station's entry of the capturer's table", 1)
     r9(db, rep)
+    rep.rule("R10-tkip-words", "TKIP key mixing loads every 16-bit word least-significant octet first: key and address words as "
+                               "(x[k+1], x[k]), and from the TKIP header IV16 = (octet 0, octet 2), Lo16(IV32) = (octet 5, octet 4), "
+                               "Hi16(IV32) = (octet 7, octet 6)", 3)
+    r10(db, rep)
     rep.explanation = ("Also decides the step table of RSNHandshakeCapturer::do_insert (R4: append iff next expected, keep state on a "
                        "retransmission of the last stored message). Decides two clauses of C09: 'frames whose integrity check fails are never reported as decrypted' "
                        "(guard dominance on every non-null return) and 'decrypting truncated/corrupted/hostile protected "
@@ -609,6 +613,94 @@ def r8(db, rep):
             rep.violation("R8-ds-address-table", key, facts.loc(f, top), bad + ": keys and access points are looked up under the wrong station")
         else:
             rep.ok("R8-ds-address-table", key, facts.loc(f, top), "%s selected per 802.11 for (0,0), (0,1), (1,0)" % "/".join(roles))
+
+
+def r10(db, rep):
+    """RC4Key::from_packet: the operands of every join_bytes(hi, lo) whose two arguments are octets of one array.  The TKIP
+    header (802.11-2012 11.4.2.1.2): octet 0 = TSC1, 1 = WEPSeed, 2 = TSC0, 3 = key id, 4..7 = TSC2..TSC5, so
+    IV16 = TSC1:TSC0 and IV32 = TSC5:TSC4:TSC3:TSC2; temporal key and transmitter address are octet strings read as
+    little-endian 16-bit words.  Sibling rule: the 24 key / address loads all have this form; the header loads must too."""
+    fs = [f for fid, f in db.functions.items() if "RC4Key::from_packet(" in fid and f.get("body")]
+    if not fs:
+        rep.analysis_broken("RC4Key::from_packet vanished")
+        return
+    f = fs[0]
+    hi_lo = [x for x in db.functions.values() if x.get("name", "").split("::")[-1] == "join_bytes" and x.get("body")]
+    # join_bytes(b1, b2) == (b1 << 8) | b2: confirmed by execution
+    from vlib import ieval
+    try:
+        jb = hi_lo[0]
+        v = ieval.run_body(jb, jb["body"], {jb["params"][0]["var"]: 0x12, jb["params"][1]["var"]: 0x34})
+    except (ieval.Unknown, IndexError):
+        v = None
+    if v != 0x1234:
+        rep.analysis_broken("join_bytes(b1, b2) is not (b1 << 8) | b2 any more (0x12, 0x34 -> %s)" % (hex(v) if v is not None else "?"))
+        return
+    payload_vars = set(n["var"] for n in facts.fn_nodes(f) if n["k"] == "VarDecl" and n.get("c") and
+                       any(x["k"] == "CXXMemberCallExpr" and x.get("cname") == "payload" for x in facts.walk(n["c"][0])))
+    HEADER = {(0, 2): "IV16 = TSC1:TSC0", (5, 4): "Lo16(IV32) = TSC3:TSC2", (7, 6): "Hi16(IV32) = TSC5:TSC4"}
+    n = 0
+    for c in facts.fn_nodes(f):
+        if c["k"] != "CallExpr" or c.get("cname") != "join_bytes" or len(c["c"]) != 3:
+            continue
+        a, b = facts.strip_all(c["c"][1]), facts.strip_all(c["c"][2])
+
+        def octet(e):
+            # x[i] on a pointer / array / vector / std::array
+            if e["k"] == "ArraySubscriptExpr":
+                return facts.strip_all(e["c"][0]), facts.cval(e["c"][1])
+            if e["k"] == "CXXOperatorCallExpr" and e.get("op") == "[]" and len(e["c"]) == 3:
+                return facts.strip_all(e["c"][1]), facts.cval(e["c"][2])
+            return None, None
+        def octet_sym(e):
+            if e["k"] == "ArraySubscriptExpr":
+                return facts.strip_all(e["c"][0]), e["c"][1]
+            if e["k"] == "CXXOperatorCallExpr" and e.get("op") == "[]" and len(e["c"]) == 3:
+                return facts.strip_all(e["c"][1]), e["c"][2]
+            return None, None
+        (ba, ia), (bb, ib) = octet(a), octet(b)
+        if ba is not None and bb is not None and (ia is None or ib is None) and facts.expr_str(ba) == facts.expr_str(bb):
+            # indices written over a loop counter (`x[2 * w + 1], x[2 * w]`): evaluated for the first counter values
+            (_, ea), (_, eb) = octet_sym(a), octet_sym(b)
+            vs = sorted(set(x["var"] for e_ in (ea, eb) for x in facts.walk(e_) if x["k"] == "DeclRefExpr" and x.get("var") and "v" not in x))
+            diffs = set()
+            try:
+                for k_ in range(4):
+                    env = dict((v_, k_) for v_ in vs)
+                    diffs.add((ieval.ev(f, ea, env) - ieval.ev(f, eb, env), ieval.ev(f, eb, env) % 2))
+            except ieval.Unknown:
+                continue
+            n += 1
+            base = facts.expr_str(ba)
+            key = "from_packet:%s[%s],%s[%s]#%d" % (base, facts.expr_str(ea)[:16], base, facts.expr_str(eb)[:16], n)
+            if diffs == {(1, 0)} and not (ba["k"] == "DeclRefExpr" and ba.get("var") in payload_vars):
+                rep.ok("R10-tkip-words", key, facts.loc(f, c), "little-endian words of %s (index pair k+1, k for every counter value tried)" % base)
+            else:
+                rep.violation("R10-tkip-words", key, facts.loc(f, c),
+                              "join_bytes(%s[%s], %s[%s]) is not the little-endian word (x[2w+1], x[2w])" % (base, facts.expr_str(ea), base, facts.expr_str(eb)))
+            continue
+        if ba is None or bb is None or ia is None or ib is None or facts.expr_str(ba) != facts.expr_str(bb):
+            continue
+        n += 1
+        base = facts.expr_str(ba)
+        key = "from_packet:%s[%d],%s[%d]#%d" % (base, ia, base, ib, n)
+        if ba["k"] == "DeclRefExpr" and ba.get("var") in payload_vars:
+            if (ia, ib) in HEADER:
+                rep.ok("R10-tkip-words", key, facts.loc(f, c), HEADER[(ia, ib)])
+            else:
+                rep.violation("R10-tkip-words", key, facts.loc(f, c),
+                              "join_bytes(%s[%d], %s[%d]) builds a word from TKIP header octets %d (high) and %d (low); the header's words are %s: "
+                              "with these operands the mixed key is wrong as soon as the octets differ (TSC >= 65536 for IV32) and frames "
+                              "encrypted by a conforming station are not decrypted" %
+                              (base, ia, base, ib, ia, ib, "; ".join("%s = octets %s" % (v_, k_) for k_, v_ in sorted(HEADER.items()))))
+        elif ia == ib + 1:
+            rep.ok("R10-tkip-words", key, facts.loc(f, c), "little-endian word %d of %s" % (ib // 2, base))
+        else:
+            rep.violation("R10-tkip-words", key, facts.loc(f, c),
+                          "join_bytes(%s[%d], %s[%d]) is not the little-endian word (x[k+1], x[k]) every other key / address load of the "
+                          "mixing function uses" % (base, ia, base, ib))
+    if n < 3:
+        rep.analysis_broken("only %d word loads found in RC4Key::from_packet (IV16 and the two halves of IV32 expected at least)" % n)
 
 
 def r9(db, rep):
